@@ -1167,3 +1167,118 @@ Proof.
       * intros b. apply Hin.
     + intros b Hb. apply Hin in Hb. split; [assumption | apply Hlook, Hb].
 Qed.
+
+(* ================================================================================================ *)
+(* empty categories are trailing                                                                   *)
+(* ================================================================================================ *)
+
+(* b = non-empty categories followed by empty ones *)
+Definition TrailingOnly (b : ballot) : Prop :=
+  exists r n, b = r ++ repeat [] n /\ Forall (fun c => c <> []) r.
+
+Lemma all_empty_iff b : all_empty b = true <-> b = repeat [] (length b).
+Proof.
+  induction b as [|c b IH]; simpl; [tauto|].
+  destruct c as [|x c].
+  - rewrite IH. split; intros H; [f_equal; exact H | injection H as H; exact H].
+  - split; discriminate.
+Qed.
+
+Lemma trailing_ok_iff b : trailing_ok b = true <-> TrailingOnly b.
+Proof.
+  induction b as [|c b IH]; simpl.
+  - split; auto. intros _. exists [], 0%nat. split; [reflexivity | constructor].
+  - destruct c as [|x c].
+    + rewrite all_empty_iff. split.
+      * intros H. exists [], (S (length b)). simpl. split; [f_equal; exact H | constructor].
+      * intros (r & n & E & Hr). destruct r as [|c' r].
+        -- simpl in E. destruct n as [|n]; [discriminate|]. simpl in E. injection E as E.
+           rewrite E, repeat_length. reflexivity.
+        -- simpl in E. injection E as E1 E2. subst c'. inversion Hr; subst. tauto.
+    + rewrite IH. split.
+      * intros (r & n & E & Hr). exists ((x :: c) :: r), n. simpl. split; [f_equal; exact E|].
+        constructor; [discriminate | assumption].
+      * intros (r & n & E & Hr). destruct r as [|c' r].
+        -- simpl in E. destruct n; discriminate.
+        -- simpl in E. injection E as E1 E2. inversion Hr; subst. exists r, n. split; auto.
+Qed.
+
+Lemma TrailingOnly_pad k b : TrailingOnly b -> TrailingOnly (pad k b).
+Proof.
+  intros (r & n & E & Hr). unfold pad. exists r, (n + (N.to_nat k - length b))%nat.
+  split; [|assumption]. rewrite E at 1. rewrite <- app_assoc, repeat_app. reflexivity.
+Qed.
+
+Lemma TrailingOnly_cons c b : c <> [] -> TrailingOnly b -> TrailingOnly (c :: b).
+Proof.
+  intros Hc (r & n & E & Hr). exists (c :: r), n. simpl. split; [congruence | constructor; assumption].
+Qed.
+
+Lemma classes_pref_empty ns : classes_pref ns [] = repeat [] (length ns).
+Proof.
+  induction ns as [|n ns IH]; [reflexivity|].
+  rewrite classes_pref_cons. destruct (N.to_nat n); simpl; rewrite IH; reflexivity.
+Qed.
+
+Lemma concat_nonempty (g : order) : g <> [] -> Forall (fun c => c <> []) g -> concat g <> [].
+Proof.
+  destruct g as [|c g]; [congruence|]. intros _ H. inversion H; subst. simpl.
+  intros E. apply app_eq_nil in E. tauto.
+Qed.
+
+Lemma classes_pref_trailing ns : forall o,
+  Forall (fun n => 0 < n) ns -> Forall (fun c => c <> []) o -> TrailingOnly (classes_pref ns o).
+Proof.
+  induction ns as [|n ns IH]; intros o Hpos Hne.
+  - rewrite classes_pref_nil. destruct o as [|c o].
+    + exists [], 0%nat. split; [reflexivity | constructor].
+    + exists [concat (c :: o)], 0%nat. split; [reflexivity|].
+      constructor; [|constructor]. apply concat_nonempty; [discriminate | assumption].
+  - destruct o as [|c o].
+    + rewrite classes_pref_empty. exists [], (length (n :: ns)). split; [reflexivity | constructor].
+    + rewrite classes_pref_cons. inversion Hpos as [|? ? Hn Hpos']; subst.
+      apply TrailingOnly_cons.
+      * apply concat_nonempty.
+        -- destruct (N.to_nat n) eqn:E; [lia | discriminate].
+        -- rewrite <- (firstn_skipn (N.to_nat n) (c :: o)) in Hne. apply Forall_app in Hne. tauto.
+      * apply IH; [assumption|].
+        rewrite <- (firstn_skipn (N.to_nat n) (c :: o)) in Hne. apply Forall_app in Hne. tauto.
+Qed.
+
+Lemma size_pref_trailing ts o :
+  ts <> [] -> Forall (fun t => 0 < t) ts -> Forall (fun c => c <> []) o -> TrailingOnly (size_pref ts o).
+Proof.
+  intros Hts Hpos Hne. destruct o as [|c o].
+  - destruct ts as [|t ts]; [congruence|]. exists [], 1%nat. split; [reflexivity | constructor].
+  - exists (size_pref ts (c :: o)), 0%nat. split; [symmetry; apply app_nil_r|].
+    eapply size_rule_nonempty; eauto using size_rule_holds. discriminate.
+Qed.
+
+(* positive truncators (for the relative mode: positive table entries at the lengths that occur),
+   non-empty classes: in every produced ballot the empty categories are trailing *)
+Definition positive_params (nic st : option (list N)) (rst : option (list (list N))) (src : list (order * N)) : Prop :=
+  Forall (fun n => 0 < n) (olist nic) /\ Forall (fun t => 0 < t) (olist st) /\
+  Forall (fun om => Forall (fun t => 0 < t) (rel_sizes (olist rst) (fst om))) src.
+
+Lemma fo_trailing_lemma src nic st rst ci :
+  from_ordinal src nic st rst = Ok ci ->
+  truthy nic || truthy st || truthy rst = true ->
+  positive_params nic st rst (os_multiplicity src) ->
+  Forall (fun om => Forall (fun c => c <> []) (fst om)) (os_multiplicity src) ->
+  Forall TrailingOnly (ci_preferences ci).
+Proof.
+  intros H Ht (Pn & Ps & Pr) Hwf.
+  pose proof (fo_conserve_lemma _ _ _ _ _ H) as Hc. cbv zeta in Hc.
+  destruct Hc as (_ & _ & _ & Hin & _).
+  apply Forall_forall. intros b Hb. apply Hin in Hb.
+  rewrite (fo_ballots_eq _ _ _ _ _ H) in Hb. apply in_map_iff in Hb. destruct Hb as ([o m] & Eb & Hom).
+  subst b. simpl. apply TrailingOnly_pad.
+  rewrite Forall_forall in Hwf, Pr. specialize (Hwf _ Hom). specialize (Pr _ Hom). simpl in Hwf, Pr.
+  unfold raw_pref. destruct (truthy rst) eqn:Er.
+  - apply size_pref_trailing; auto.
+    destruct rst as [[|tab tabs]|]; simpl in Er; try discriminate; try (simpl; discriminate).
+  - destruct (truthy st) eqn:Es.
+    + apply size_pref_trailing; auto. destruct st as [[|t ts]|]; simpl in Es; try discriminate; try (simpl; discriminate).
+    + destruct (truthy nic) eqn:En; [|exfalso; rewrite ?En, ?Es, ?Er in Ht; discriminate Ht].
+      apply classes_pref_trailing; assumption.
+Qed.
